@@ -21,7 +21,8 @@
    left behind after the holder finished; 5 lock file removed by others, forced refresh ran, but the
    context was not cancelled before the backend was unfrozen; 6 a forced refresh reported success
    (context alive when the backend was unfrozen) although the holder owns no lock file; 7 a forced refresh reported success although
-   the holder's old lock file had been removed before the second existence check. *)
+   the holder's old lock file had been removed before the second existence check; 8 a regular refresh
+   was started although the last successfully written lock was older than R. *)
 From Restic Require Import Base.Prelude.
 
 Module C13m.
@@ -174,7 +175,10 @@ Record case := mkCase {
                                          context cancelled before Unfreeze *)
   c_forced_ok_has_file : list bool;   (* per forced refresh that reported success (context alive at Unfreeze):
                                          the holder owns a lock file at that moment *)
-  c_forced_ok_old_existed : list bool (* ... and its OLD lock file was still there at both existence checks *)
+  c_forced_ok_old_existed : list bool; (* ... and its OLD lock file was still there at both existence checks *)
+  c_regular_in_time : list bool        (* per regular refresh started: the last SUCCESSFULLY written lock was
+                                          not older than R at that moment (older locks go through the forced
+                                          refresh with its existence checks) *)
 }.
 
 Definition sample_fresh (c : cfg) (x : sample) : bool :=
@@ -189,7 +193,8 @@ Definition check_C13 (k : case) : bool :=
   (c_left_behind k =? 0) &&
   forallb (fun b => b) (c_forced_after_removal k) &&
   forallb (fun b => b) (c_forced_ok_has_file k) &&
-  forallb (fun b => b) (c_forced_ok_old_existed k).
+  forallb (fun b => b) (c_forced_ok_old_existed k) &&
+  forallb (fun b => b) (c_regular_in_time k).
 
 Definition check_case (k : case) : nat :=
   if negb (forallb (sample_fresh (c_cfg k)) (c_samples k)) then 2
@@ -198,6 +203,7 @@ Definition check_case (k : case) : nat :=
   else if negb (forallb (fun b => b) (c_forced_after_removal k)) then 5
   else if negb (forallb (fun b => b) (c_forced_ok_has_file k)) then 6
   else if negb (forallb (fun b => b) (c_forced_ok_old_existed k)) then 7
+  else if negb (forallb (fun b => b) (c_regular_in_time k)) then 8
   else match run (c_cfg k) (init (c_acq k)) (c_trace k) with
        | None => 1
        | Some s => if Bool.eqb (alive s) (c_alive_end k) then 0 else 1
